@@ -10,6 +10,10 @@ CHECKS = {
   "runtime monitoring of the real merge routine: algebraic-law and tie-table oracles over an exhaustively enumerated small domain plus seeded random sets; differential strategy.Update vs Merge inside real LMDB transactions",
   "The real NativeIterator.Merge and strategy.Update (real LMDB write transactions) are executed on every pair and every triple (all 6 orders) of a 25-version domain x 3 format versions x 4 cutoffs x default timestamp x padding, and on seeded random sets. Per-step and per-set oracles (monotone, untouched bytes when not winning, consistent ties, order-insensitive up to the documented retention exception, no LMDB transaction for non-winning merges). Exhaustive on the small domain, sampled beyond; held on the executions explored.",
   "Trusted: the independent header reader (hdr), LMDB itself. Versions well-formed. Tie-break not prescribed.", "DESIGN.md section 6 C02"),
+ "C03": ("fault_enumeration",
+  "runtime monitoring of the real Sync loop under forced schedules: guarded yield points block the loop between its own steps while the harness commits application transactions; read-back oracle at logical quiescence",
+  "Every yield point of the loop (11 points: before/between/after each of Lightning Stream's own transactions, env.Info() calls and Store) x 5 change kinds x pending remote snapshot none/no-news(empty LS transaction)/news x earlier commit x native/shadow is enumerated with the real Sync loop running; plus injections ordered after the merge, a family where LoadOnce itself captures the earlier change (the following SendOnce is empty), empty values, header padding and seeded multi-injection schedules. At each idle state (logical clock) and again after a following remote merge every committed key must read back as committed.",
+  "Schedule points are yield points between LMDB transactions/bucket calls (transactions are atomic). Staged remote versions cannot win. Poll intervals 1 ms; verdicts use loop iterations, the wall clock is only a watchdog (inconclusive).", "DESIGN.md section 6 C03"),
  "C07": ("exploration",
   "runtime differential monitoring of the real codec against two reference decoders over generated and re-encoded inputs",
   "Differential runtime monitor: every generated snapshot (boundary lengths, buffer growth steps, 1000s of entries, multi-MB values, single entries beyond the growth step) is written by the real encoder and read back by the real hand-written decoder, the generated gogo codec and an independent strict wire parser; re-encodings (permuted fields, unknown fields of all wire types at every level, duplicated scalars, split Meta) must be read identically by all three. Held on the executions explored, not a proof.",
@@ -30,6 +34,10 @@ CHECKS = {
   "runtime monitoring: exhaustive enumeration of extension counts and differential header parsing against an independent reader; write monitor on every value the real merge routine produces",
   "All 65536 extension counts are executed through Header.Bytes/Parse/Skip and compared with an independent reader of the documented layout; differential accept/reject and split on ~10^6 random and near-valid byte strings; PutBasic on dirty buffers; every value written by the real merge routine over the C02 domain (stored values with 1-3 foreign extension blocks, foreign flag bits on incoming entries, padding on/off) is checked for well-formedness and for the id of the writing transaction.",
   "Trusted: hdr.Read (written from docs/schema-native.md).", "DESIGN.md section 6 C14"),
+ "C09": ("fault_enumeration",
+  "runtime monitoring of the real Sync loop under forced schedules and injected Store faults; the newest own blob in the instrumented bucket is decoded by the independent decoder at every idle state",
+  "Same enumerated schedule space as C03 plus Store fault scripts (first 1, 2 or 4 attempts of the upload fail, retry budget 5). Whenever the loop is idle (all staged snapshots merged + 3 activity-free iterations) the newest snapshot under the instance's name must contain every key the application wrote in a version at least as new; Sync returning instead of publishing is a violation.",
+  "Forced snapshot interval disabled. Idle = logical clock of loop iterations.", "DESIGN.md section 6 C09"),
  "C11": ("exploration",
   "runtime monitoring of a real non-native Syncer stepped through SendOnce/LoadOnce against a map-based reference model of capture, merge and projection",
   "Generated histories (plain and MDB_INTEGERKEY DBIs incl. key 0, DBI creation, inserts/overwrites/deletes/no-op rewrites, remote snapshots older/newer/deleting/adding DBIs) drive the real capture (SendOnce) and capture+merge+project (LoadOnce) steps; after every step the real application DBIs and the raw shadow DBIs must equal the reference model, capture stamps must fall in the step's clock bracket and be uniform, changed shadow values must be well-formed with the writing transaction's id.",
